@@ -27,6 +27,10 @@ fn configure<B: Builder>(b: &mut B, opts: &[&str]) {
             "bg" => { b.background_color(rgba(v)); }
             "fg" => { b.module_color(rgba(v)); }
             // colour given as a string (<hex of the string>:<the rgba it denotes>): &str for the module colour, String for the background
+            // other constructor forms of Color: Vec<u8> (4 components), &[u8] (4 / 3 components)
+            "fgv" => { let c = rgba(v); b.module_color(c.to_vec()); }
+            "bgv" => { let c = rgba(v); b.background_color(&c[..]); }
+            "bgv3" => { let c = rgba(v); b.background_color(&c[..3]); }
             "fgs" => { let st = String::from_utf8(unhex(v.split_once(':').unwrap().0)).unwrap(); b.module_color(st.as_str()); }
             "bgs" => { let st = String::from_utf8(unhex(v.split_once(':').unwrap().0)).unwrap(); b.background_color(st); }
             "shape" => { b.shape(SHAPES[v.parse::<usize>().unwrap()]); }
@@ -98,6 +102,9 @@ pub fn run_case(a: &[&str]) -> String {
                     "margin" => margin = v.parse().unwrap(),
                     "fg" => fg = rgba(v),
                     "bg" => bg = rgba(v),
+                    "fgv" => fg = rgba(v),
+                    "bgv" => bg = rgba(v),
+                    "bgv3" => { let c = rgba(v); bg = [c[0], c[1], c[2], 255]; }
                     "fgs" => fg = rgba(v.split_once(':').unwrap().1),
                     "bgs" => bg = rgba(v.split_once(':').unwrap().1),
                     "fitw" => { b.fit_width(v.parse().unwrap()); }
@@ -223,7 +230,7 @@ pub fn run_case(a: &[&str]) -> String {
             let qr = QRBuilder::new(payload).build().unwrap();
             let dir = a[3];
             let path = match a[2] {
-                "ok" | "overwrite" => format!("{}/out_{}_{}_{}.{}", dir, a[2], a.get(4).unwrap_or(&"large"), std::process::id(), a[1]),
+                "ok" | "overwrite" | "samelen" => format!("{}/out_{}_{}_{}.{}", dir, a[2], a.get(4).unwrap_or(&"large"), std::process::id(), a[1]),
                 "direct" => dir.to_string(),
                 "missingdir" => format!("{}/no/such/dir/out.{}", dir, a[1]),
                 "isdir" => dir.to_string(),
@@ -248,20 +255,33 @@ pub fn run_case(a: &[&str]) -> String {
             } else if a[2] == "ok" || a[2] == "bare" {
                 let _ = std::fs::remove_file(&path);
             }
+            let nonascii = a.get(4).map(|s| *s) == Some("nonascii");
             let (res, expect): (Result<(), String>, Vec<u8>) = if a[1] == "svg" {
                 let mut b = SvgBuilder::default();
                 if payload != "A" {
                     b.shape(Shape::Circle).margin(2);
                 }
-                (b.to_file(&qr, &path).map_err(|e| format!("{:?}", e)), b.to_str(&qr).into_bytes())
+                if nonascii {
+                    b.image("caf\u{e9}/\u{20ac}.png".to_string());
+                }
+                let expect = b.to_str(&qr).into_bytes();
+                if a[2] == "samelen" {
+                    // an existing file of exactly the length of the new document, with different content
+                    std::fs::write(&path, vec![0x55u8; expect.len()]).unwrap();
+                }
+                (b.to_file(&qr, &path).map_err(|e| format!("{:?}", e)), expect)
             } else {
                 let mut b = ImageBuilder::default();
                 b.margin(1);
-                (b.to_file(&qr, &path).map_err(|e| format!("{:?}", e)), b.to_bytes(&qr).unwrap())
+                let expect = b.to_bytes(&qr).unwrap();
+                if a[2] == "samelen" {
+                    std::fs::write(&path, vec![0x55u8; expect.len()]).unwrap();
+                }
+                (b.to_file(&qr, &path).map_err(|e| format!("{:?}", e)), expect)
             };
             match res {
                 Ok(()) => {
-                    let same = if a[2] == "ok" || a[2] == "overwrite" || a[2] == "direct" || a[2] == "bare" { std::fs::read(&path).map(|c| c == expect).unwrap_or(false) } else { false };
+                    let same = if a[2] == "ok" || a[2] == "overwrite" || a[2] == "samelen" || a[2] == "direct" || a[2] == "bare" { std::fs::read(&path).map(|c| c == expect).unwrap_or(false) } else { false };
                     format!("RET_OK same={}", same as u8)
                 }
                 Err(_) => "RET_ERR".to_string(),
